@@ -79,7 +79,7 @@ mutual
     | .node h v ks, K => by
       intro c hc
       unfold dpRemH at hc
-      simp only [handles_node, List.mem_cons]
+      simp only [fi_handles_node, List.mem_cons]
       split at hc
       · rcases List.mem_append.mp hc with hc | hc
         · obtain ⟨kv, _, rfl⟩ := List.mem_map.mp hc
@@ -92,7 +92,7 @@ mutual
     | k :: ks, K => by
       intro c hc
       simp only [dpRemHList, List.mem_append] at hc
-      simp only [handlesList_cons, List.mem_append]
+      simp only [fi_handlesList_cons, List.mem_append]
       rcases hc with hc | hc
       · exact Or.inl (dpRemH_mem env k K c hc)
       · exact Or.inr (dpRemHList_mem env ks K c hc)
@@ -160,7 +160,7 @@ mutual
   theorem eraseWithout_dpRemH (env : Env) : ∀ (x : HTree) (K : List (List (Nat × Nat))), (handles x).Nodup →
       eraseWithout (dpRemH env K x) x = dpWalk env K x.erase
     | .node h v ks, K, hnd => by
-      simp only [handles_node, List.nodup_cons] at hnd
+      simp only [fi_handles_node, List.nodup_cons] at hnd
       by_cases he : v.isElement = true
       · have hcs : dpRemH env K (.node h v ks) =
             (dpRed env K (.node v (eraseList ks))).map (fun kv => (h, kv.1)) ++
@@ -196,7 +196,7 @@ mutual
       (handlesList ks).Nodup → eraseWithoutList (dpRemHList env K ks) ks = dpWalk.dpWalkList env K (eraseList ks)
     | [], _, _ => rfl
     | k :: ks, K, hnd => by
-      simp only [handlesList_cons, List.nodup_append] at hnd
+      simp only [fi_handlesList_cons, List.nodup_append] at hnd
       have hA := dpRemH_mem env k K
       have hB := dpRemHList_mem env ks K
       have h1 : eraseWithout (dpRemH env K k ++ dpRemHList env K ks) k = eraseWithout (dpRemH env K k) k := by
